@@ -3,7 +3,7 @@
 # confirms the seeded change in a scratch worktree (demo passes before / fails after, baseline passes), runs the property's
 # quick check against it on /repo (applied and reverted), and files it under /verif/seeded/<name>/
 sd=$(realpath "$1"); id=$2; name=$3
-wt=/tmp/wt3/confirm.$$
+wt=/tmp/wt4/confirm.$$
 git -C /repo worktree add -q --detach $wt HEAD || exit 3
 trap 'git -C /repo worktree remove --force $wt' EXIT
 PYTHONPATH=$wt /venv/bin/python $sd/demo.py >/dev/null 2>&1; before=$?
